@@ -36,6 +36,11 @@ def run(ctx, model_ok=True):
         for rep in range(1 if quick else 6):
             olines.append(f"codec o{k} {lab} {rng.randrange(1 << 30)} {rng.choice([0, 3, 25])}")
             k += 1
+    # every metadata leaf of every format with metadata gets other values of its own form: what the interface accepts must leave a loadable image of the same shape
+    for lab in ['woz2:5.25in', 'woz1:5.25in', 'woz2:3.5in-ds', 'woz2:5.25in-13', '2mg-po:3.5in-ss', '2mg-do:5.25in', '2mg-nib:5.25in', 'td0:8in', 'td0:3.5in-ibm-720', 'td0:5.25in-kayii',
+                'imd:8in', 'imd:5.25in-ibm-dsdd9']:
+        olines.append(f"metasweep o{k} {lab}")
+        k += 1
     out = fw.run_lines(fw.HARNESS_BIN, olines, timeout=1400)
     for ln in olines:
         o = out.get(ln.split()[1])
